@@ -94,6 +94,9 @@ TheSchema == [
   NftItemData |-> << Alt("nft_item_data", <<>>, << F("index", U(64)), F("collection_address", AddrInt), F("owner_address", AddrInt), F("content", RefCell) >>) >>,
   NftItemSaleFees |-> << Alt("nft_item_sale_fees", <<>>, << F("marketplace_fee_address", AddrInt), F("marketplace_fee", Grams),
                                                            F("royalty_address", AddrInt), F("royalty_amount", Grams) >>) >>,
+  NftItemSaleData |-> << Alt("nft_item_sale_data", <<>>, << F("is_complete", Bool), F("created_at", U(32)), F("marketplace_address", AddrInt),
+        F("nft_address", AddrInt), F("nft_owner_address", AddrInt), F("full_price", Grams), F("fees_cell", Ref(Named("NftItemSaleFees"))),
+        F("can_deploy_by_external", Bool) >>) >>,
   \* ---- envelopes
   MsgEnvelope |-> << Alt("msg_envelope", <<0, 1, 0, 0>>, << F("cur_addr", Named("IntermediateAddress")), F("next_addr", Named("IntermediateAddress")),
                                                           F("fwd_fee_remaining", Grams), F("msg", Ref(Named("Message"))) >>) >>,
